@@ -109,6 +109,8 @@ def run_schedule(tid, nthreads, k, picker, rng, broken_lock=False, client_name="
     clock = C.VClock()
     line = C.Line(clock, "tcp")
     sched = Sched(picker)
+    if hasattr(picker, "__closure__") and getattr(picker, "_sched_ref", None) is not None:
+        picker._sched_ref["s"] = sched
     frames = []
     delayed = []
 
@@ -202,6 +204,34 @@ def pickers(nthreads, rng, tier):
     return out
 
 
+def tlc_orders(nt, k):
+    """every order in which the threads can win the lock (behaviours of ThreadsGen)"""
+    from vcommon import run_tlc, tlc_ok, parse_printed
+    cfg = open(os.path.join(SPEC, "ThreadsGen.cfg")).read().replace("NT = 3", "NT = %d" % nt).replace("K = 2", "K = %d" % k)
+    res = run_tlc("ThreadsGen", None, workers=4, timeout=600, cfg_text=cfg)
+    if not tlc_ok(res):
+        raise MachineryError("ThreadsGen failed:\n" + "\n".join(res["out"].splitlines()[-20:]))
+    return parse_printed(res["out"], "ORDER"), res
+
+
+def order_picker(order, sched_ref, disturb):
+    """run the threads so that they win the lock in the given order; with `disturb` every third decision goes to
+    another runnable thread first (it runs until it blocks on the lock or reaches its next yield point)"""
+    state = {"i": 0}
+
+    def p(runnable, step):
+        done = sum(1 for e in sched_ref["s"].events if e["op"] == "done")
+        i = min(done, len(order) - 1)
+        target = order[i]
+        if disturb and step % 3 == 0:
+            others = [t for t in runnable if t != target]
+            if others:
+                return others[step % len(others)]
+        return target if target in runnable else runnable[0]
+    p._sched_ref = sched_ref
+    return p
+
+
 def run(prop, tier):
     rng = random.Random(seed() * 7 + 15)
     rep = Report(prop, tier, "model_checking")
@@ -221,6 +251,20 @@ def run(prop, tier):
         for j, p in enumerate(pickers(nt, rng, tier)):
             traces.append(run_schedule("t%d" % k, nt, kk, p, rng, units_differ=(j % 2 == 1)))   # callers address the same / different units
             k += 1
+    # TLC-generated behaviours: every lock-acquisition order of the model, replayed with and without disturbance
+    nord = 0
+    for nt, kk in ([(3, 2)] if tier == "quick" else [(2, 2), (3, 2), (2, 3)]):
+        orders, gres = tlc_orders(nt, kk)
+        rep.add_mc(gres, "ThreadsGen NT=%d K=%d (behaviour export)" % (nt, kk))
+        for j, od in enumerate(orders):
+            for disturb in (False, True):
+                ref = {"s": None}
+                t = run_schedule("o%d" % k, nt, kk, order_picker(od, ref, disturb), rng, units_differ=(j % 2 == 1))
+                t["order"] = od
+                traces.append(t)
+                k += 1
+                nord += 1
+    rep.notes["tlc_generated_orders_replayed"] = nord
     verdicts, st = validate_traces("ThreadsTrace", "ThreadsTrace.cfg", traces)
     rep.add_tv(st, len(traces), sum(len(t["ev"]) for t in traces))
     for t in traces:
